@@ -382,6 +382,111 @@ def same(a, b, whole_values=True):
         return False
 
 
+class _NoValue(Exception):
+    pass
+
+
+def _evaluate(v, asg, rnd):
+    """the number a (normalised) formula denotes when every atom that is not arithmetic the evaluator knows is given an integer: `asg`
+    (atom key -> int) is filled on demand from `rnd`"""
+    from fractions import Fraction
+
+    def poly(p):
+        tot = Fraction(0)
+        for m, c in p.t.items():
+            term = Fraction(c)
+            for a, e in m:
+                term *= Fraction(atom(a)) ** e
+            tot += term
+        return tot
+
+    def rat(r):
+        d = poly(r.d)
+        if d == 0:
+            raise _NoValue()
+        return poly(r.n) / d
+
+    def arg(k):
+        if isinstance(k, str):
+            raise _NoValue()
+        return rat(_arg(k))
+
+    def integer(x):
+        if x.denominator != 1:
+            raise _NoValue()
+        return int(x)
+
+    def atom(a):
+        d = F.atom_desc(a)
+        if d[0] == "fn":
+            nm, ks = d[1], d[2]
+            if nm == "phi" and len(ks) == 3:
+                return arg(ks[1]) if arg(ks[0]) != 0 else arg(ks[2])
+            if nm == "ge0" and len(ks) == 1:
+                return 1 if arg(ks[0]) >= 0 else 0
+            if nm == "eq0" and len(ks) == 1:
+                return 1 if arg(ks[0]) == 0 else 0
+            if nm == "not" and len(ks) == 1:
+                return 0 if arg(ks[0]) != 0 else 1
+            if nm == "odd" and len(ks) == 1:
+                return integer(arg(ks[0])) & 1
+            if nm == "abs" and len(ks) == 1:
+                return abs(arg(ks[0]))
+            if nm in ("hi16", "lo16") and len(ks) == 1:
+                x = integer(arg(ks[0]))
+                return (x >> 16) if nm == "hi16" else (x & 0xFFFF)
+            if nm in ("floordiv", "mod", "and", "or", "shr") and len(ks) == 2:
+                x, y = arg(ks[0]), arg(ks[1])
+                if nm == "floordiv":
+                    if y == 0:
+                        raise _NoValue()
+                    return x // y
+                x, y = integer(x), integer(y)
+                if nm == "mod":
+                    if y == 0:
+                        raise _NoValue()
+                    return x % y
+                if nm == "shr" and not 0 <= y <= 64:
+                    raise _NoValue()
+                return {"and": x & y, "or": x | y, "shr": x >> y if nm == "shr" else 0}[nm]
+            if nm in ("bool:And", "bool:Or"):
+                vals = [arg(k) != 0 for k in ks]
+                return int(all(vals) if nm == "bool:And" else any(vals))
+            if nm.startswith("cmp:") and len(ks) == 2 and nm[4:] in ("Lt", "LtE", "Gt", "GtE", "Eq", "NotEq"):
+                x, y = arg(ks[0]), arg(ks[1])
+                return int({"Lt": x < y, "LtE": x <= y, "Gt": x > y, "GtE": x >= y, "Eq": x == y, "NotEq": x != y}[nm[4:]])
+        elif d[0] == "s" and (d[1][:1] in "'\"" or d[1] in ("None", "True", "False")):
+            raise _NoValue()            # text / None: not a number
+        if a not in asg:
+            # a word read from the file, a size, a parameter: some positive integer (words wide enough to have both halves)
+            wide = d[0] == "fn" and d[1] in ("idx", "call:int", "dec", "lv")
+            asg[a] = rnd.randrange(1, 1 << 18) if wide and rnd.random() < 0.5 else rnd.randrange(1, 40)
+        return asg[a]
+    return rat(v)
+
+
+def refute(a, b, whole_values=True, trials=60):
+    """a witness that two values differ as functions of what they are made of: an assignment of integers to their atoms under which they
+    evaluate to different numbers -> {atom text: value} or None (none found: they may be equal in a way the normal form does not show)"""
+    import random
+    if a is None or b is None or is_unknown(a) or is_unknown(b) or isinstance(a, (tuple, DictValue)) or isinstance(b, (tuple, DictValue)):
+        return None
+    try:
+        na, nb = need(norm(a, whole_values)), need(norm(b, whole_values))
+    except Unsupported:
+        return None
+    rnd = random.Random(20260928)
+    for _ in range(trials):
+        asg = {}
+        try:
+            x, y = _evaluate(na, asg, rnd), _evaluate(nb, asg, rnd)
+        except (_NoValue, ZeroDivisionError, OverflowError, ValueError):
+            continue
+        if x != y:
+            return {repr(F.Rat(F.Poly.atom(k)))[:80]: v for k, v in list(asg.items())[:6]}
+    return None
+
+
 def _has_split(v):
     return any(d[0] == "fn" and d[1] in ("phi", "odd") for d in walk_atoms(v))
 
@@ -402,6 +507,10 @@ def phi(c, a, b):
             return Unknown("tuple in one arm of an `if` only")
     if not is_unknown(c) and not isinstance(c, tuple) and c.is_const():
         return a if c.const_value() != 0 else b
+    if not is_unknown(c) and not isinstance(c, (tuple, DictValue)):
+        pc = fn_parts(c)
+        if pc is not None and pc[0] == "call:bool" and len(pc[1]) == 1 and not isinstance(pc[1][0], str):
+            c = pc[1][0]            # (what selects is the truth of the value)
     if is_unknown(a) or is_unknown(b):
         return a if is_unknown(a) else b
     if is_unknown(c):
@@ -559,9 +668,14 @@ def _loop_refs(lp):
     return [(names[k], upd[k]) for k in sorted(want)]
 
 
+LAST_DIFFERENCE = []        # the pair of values (x, y, whole_values) of the latest failed comparison of two amounts / tests, for a witness
+
+
 def same_items(a, b, whole_values=True, why=None, _depth=0):
     """equality of two consumption trees (up to the numbering of their loops); `why` (a list) receives the first difference"""
     a, b = tidy(a), tidy(b)
+    if _depth == 0:
+        del LAST_DIFFERENCE[:]
 
     def no(msg):
         if why is not None and not why:
@@ -576,12 +690,14 @@ def same_items(a, b, whole_values=True, why=None, _depth=0):
             return no(f"{show([x])}  vs  {show([y])}")
         if x[0] in ("B", "L", "abs"):
             if not same(x[1], y[1], whole_values):
+                LAST_DIFFERENCE[:] = [(x[1], y[1], whole_values)]
                 return no(f"{show([x])}  vs  {show([y])}")
         elif x[0] == "exit":
             if x[1] != y[1]:
                 return no(f"{x[1]} vs {y[1]}")
         elif x[0] == "if":
             if not same(x[1], y[1], whole_values):
+                LAST_DIFFERENCE[:] = [(x[1], y[1], whole_values)]
                 return no(f"branch on {x[1]!r}  vs  {y[1]!r}")
             if not same_items(x[2], y[2], whole_values, why, _depth + 1) or not same_items(x[3], y[3], whole_values, why, _depth + 1):
                 return False
@@ -646,8 +762,17 @@ def settle(v):
                 return args[1] if t else args[2]
         if name == "odd" and len(args) == 1 and not isinstance(args[0], str) and args[0].is_const() and args[0].const_value().denominator == 1:
             return F.const(int(args[0].const_value()) & 1)
+        if name in _INT_FOLDS and args and all(not isinstance(a, str) and a.is_const() and a.const_value().denominator == 1 for a in args):
+            try:
+                return F.const(_INT_FOLDS[name](*[int(a.const_value()) for a in args]))
+            except (ZeroDivisionError, TypeError, ValueError):
+                return None
         return None
     return rewrite(v, post=post, memo=_MEMO_SETTLE)
+
+
+_INT_FOLDS = {"and": lambda a, b: a & b, "or": lambda a, b: a | b, "shr": lambda a, b: a >> b, "mod": lambda a, b: a % b, "floordiv": lambda a, b: a // b,
+              "hi16": lambda a: a >> 16, "lo16": lambda a: a & 0xFFFF, "abs": abs}
 
 
 def _canon_carried(lp):
@@ -692,9 +817,11 @@ def same_loops(l1, l2, whole_values=True, why=None, _depth=0):
     e1, e2 = l1.entry_test(), l2.entry_test()
     t1, t2 = truth_of(e1), truth_of(e2)
     if not ((t1 is not None and t1 == t2) or same(e1, e2, whole_values)):
+        LAST_DIFFERENCE[:] = [(e1, e2, whole_values)]
         return no(f"loop condition on entry {norm(e1)!r}  vs  {norm(e2)!r}")
     l1, l2 = _canon_carried(l1), _canon_carried(l2)
     if not same(l1.test, l2.test, whole_values):
+        LAST_DIFFERENCE[:] = [(l1.test, l2.test, whole_values)]
         return no(f"loop condition {norm(l1.test)!r}  vs  {norm(l2.test)!r}")
     if not same_items(l1.items, l2.items, whole_values, why, _depth):
         return False
@@ -703,6 +830,8 @@ def same_loops(l1, l2, whole_values=True, why=None, _depth=0):
         return no(f"loop-carried values {[repr(p) for p, _ in c1]}  vs  {[repr(p) for p, _ in c2]}")
     for (p1, v1) in c1:
         hit = [v2 for p2, v2 in c2 if same(p1, p2, whole_values)]
+        if len(hit) == 1 and not same(v1, hit[0], whole_values):
+            LAST_DIFFERENCE[:] = [(v1, hit[0], whole_values)]
         if len(hit) != 1 or not same(v1, hit[0], whole_values):
             return no(f"update of {p1!r}: {None if is_unknown(v1) else norm(v1)!r}  vs  {[None if is_unknown(h) else norm(h) for h in hit]!r}")
     return True
@@ -985,17 +1114,18 @@ def without_none(v):
     return v
 
 
-def as_sequence(v):
-    """a selection between literal sequences of one length is the sequence of the selections of their elements"""
+def as_sequence(v, records=False):
+    """a selection between literal sequences of one length is the sequence of the selections of their elements (`records`: a record that
+    is also a sequence - a namedtuple - is taken apart too)"""
     if not _plain(v):
         return v
     p = fn_parts(v)
     if p is not None and p[0] == "tuple" and not any(isinstance(a, str) for a in p[1]):
         return tuple(p[1])
-    if p is not None and p[0] == "rec" and not any(isinstance(a, str) for a in p[1]):
+    if records and p is not None and p[0] == "rec" and not any(isinstance(a, str) for a in p[1]):
         return tuple(fn_parts(a)[1][0] for a in p[1])
     if p is not None and p[0] == "phi" and len(p[1]) == 3 and not any(isinstance(a, str) for a in p[1]):
-        a, b = as_sequence(p[1][1]), as_sequence(p[1][2])
+        a, b = as_sequence(p[1][1], records), as_sequence(p[1][2], records)
         if isinstance(a, tuple) and isinstance(b, tuple) and len(a) == len(b):
             return tuple(phi(p[1][0], x, y) for x, y in zip(a, b))
     return v
@@ -1056,11 +1186,37 @@ def choose(v, c, take):
     return rewrite(v, pre=pre)
 
 
+def _known_by_cases(v, depth=0):
+    """a value that is known once the selections in it are resolved: made of numbers, texts, None, sequences and selections of those"""
+    if isinstance(v, tuple):
+        return all(_known_by_cases(x, depth + 1) for x in v)
+    if isinstance(v, DictValue):
+        return all(_known_by_cases(x, depth + 1) for x in v.d.values())
+    if not _plain(v) or depth > 12:
+        return False
+    for a in atoms_of(v):
+        d = F.atom_desc(a)
+        if d[0] == "s":
+            if not (d[1] in ("None", "True", "False") or d[1][:1] in ("'", '"') or d[1][:2] in ("b'", 'b"')):
+                return False
+        elif d[0] == "fn" and d[1] == "phi" and len(d[2]) == 3:
+            if not all(_known_by_cases(_arg(k), depth + 1) for k in d[2][1:]):
+                return False
+        elif d[0] == "fn" and d[1] == "tuple":
+            if not all(not isinstance(k, str) and _known_by_cases(_arg(k), depth + 1) for k in d[2]):
+                return False
+        else:
+            return False
+    return True
+
+
 def split_fold(values, fn, depth=0):
     """fn(values) -> a value, or None when it cannot compute on them; then, when the values contain selections, computed case by case"""
     r = fn(values)
     if r is not None or depth >= 4:
         return r
+    if depth == 0 and not all(_known_by_cases(v) for v in values):
+        return None
     c = _first_phi(values)
     if c is None:
         return None
@@ -1071,6 +1227,34 @@ def split_fold(values, fn, depth=0):
     if b is None:
         return None
     return phi(c, a, b)
+
+
+def _floor_plus_remainder(x, flag):
+    """x + (1 if n % p else 0) with x containing n // p  is  ceil(n / p): x with that term replaced by (n + p - 1) // p"""
+    q = fn_parts(flag)
+    if q is None or q[0] != "phi" or len(q[1]) != 3 or any(isinstance(a, str) for a in q[1]) or not (q[1][1].equals(ONE) and q[1][2].is_zero()):
+        return None
+    c = fn_parts(canon_tests(q[1][0]))
+    # the remainder is positive / not zero
+    m = None
+    if c is not None and c[0] == "ge0":
+        m = fn_parts(c[1][0] + 1)
+    elif c is not None and c[0] == "not":
+        e = fn_parts(c[1][0])
+        m = fn_parts(e[1][0]) if e is not None and e[0] == "eq0" else (fn_parts(c[1][0]) if False else None)
+    elif c is not None and c[0] == "mod":
+        m = c
+    if m is None or m[0] != "mod" or len(m[1]) != 2 or any(isinstance(a, str) for a in m[1]):
+        return None
+    n, p_ = m[1]
+    fl = F.fn("floordiv", n, p_)
+    if as_atom(fl) is None or not x.d.is_const():
+        return None
+    key = ((F._intern(as_atom(fl)), 1),)
+    coef = x.n.t.get(key)
+    if coef is None or coef / x.d.const_value() != 1:
+        return None
+    return x - fl + floordiv(n + p_ - 1, p_)
 
 
 def _numeric_piece(v):
@@ -1160,6 +1344,9 @@ def table_lookup(table, k, node=None):
         except TypeError:
             pass
         return Unknown(f"key {key!r} is not in the literal table" + (f" at line {node.lineno}" if node is not None else ""))
+    if _plain(k) and d and all(kk in (0, 1, True, False) for kk in d) and len(d) == 2:
+        # a table of two entries indexed by a truth value (bool(x), a comparison): the selection on it
+        return phi(k, d[True] if True in d else d[1], d[False] if False in d else d[0])
     if isinstance(k, tuple) and len(k) <= 4:
         for i, x in enumerate(k):
             if K.conc(x) is K.NOT:
@@ -1364,6 +1551,12 @@ class CEval(AutoEvaluator):
                 r = field_value(p[1][0], node.attr)
                 if r is not None:
                     return r
+                q = fn_parts(p[1][0])
+                if node.attr == "size" and self.walker.sizes is not None and q is not None and q[0] in ("call:struct.Struct", "call:Struct") and q[1] \
+                        and not isinstance(q[1][0], str):
+                    r = self.walker.sizes.struct_size(q[1][0])          # Struct(fmt).size, in the one form sizes have
+                    if r is not None:
+                        return r
             return v
         if isinstance(node, ast.DictComp):
             # {k: v for ...}: the comprehension of the pairs (k, v)
@@ -1486,6 +1679,10 @@ class CEval(AutoEvaluator):
                 return a if is_unknown(a) else b
             if isinstance(node.op, (ast.Add, ast.Sub, ast.Mult)):
                 a, b = as_number(a), as_number(b)         # a truth value in arithmetic is 1 or 0
+            if isinstance(node.op, ast.Add) and _plain(a) and _plain(b):
+                r = _floor_plus_remainder(a, b) or _floor_plus_remainder(b, a)
+                if r is not None:
+                    return r
             r = self.walker._binop(node, a, b, self)
             if r is not NotImplemented:
                 return r
@@ -1533,10 +1730,11 @@ class CEval(AutoEvaluator):
 
 class Walker:
     def __init__(self, ctx, rel, cls, fn, env=None, cond=None, no_inline=(), extra_inline=(), files=(FILE,), small=None, follow=None,
-                 indirect=None, pinned=None, force=None, top_name="T"):
+                 indirect=None, pinned=None, force=None, top_name="T", sizes=None):
         self.ctx, self.rel, self.cls, self.fn = ctx, rel, cls, fn
         self.cond = cond
         self.force = force                   # value -> True / False / None: a rule decides tests it enumerates (one walk per case)
+        self.sizes = sizes                   # c11_fmt.SizeModel: sizes that depend on the key width, in one form
         self.pinned = dict(pinned or {})
         self.files = list(files)
         self.no_inline = set(no_inline)
@@ -1569,7 +1767,11 @@ class Walker:
             tb = _method_table(ctx, rel, cls)
             cache[(rel, cls)] = (tb, _file_effects(tb))
         self.table, self.effects = cache[(rel, cls)]
+        self.foreign_base = class_lineage(ctx, rel, cls)[1] if cls else False
         env = dict(env or {})
+        if sizes is not None:
+            for k, v in sizes.env().items():
+                env.setdefault(k, v)
         a = fn.args
         for x in a.posonlyargs + a.args + a.kwonlyargs + ([a.vararg] if a.vararg else []) + ([a.kwarg] if a.kwarg else []):
             if x.arg not in env and x.arg not in ("self", "cls"):
@@ -1600,7 +1802,7 @@ class Walker:
         fr.off[unit] = fr.off[unit] + need(n)
 
     def is_file(self, v):
-        return v is not None and not is_unknown(v) and not isinstance(v, tuple) and any(v.equals(f) for f in self.files)
+        return _plain(v) and any(v.equals(f) for f in self.files)
 
     def _binop(self, node, a, b, ev):
         op = node.op
@@ -1740,6 +1942,13 @@ class Walker:
                 self.assign(st.target, ev.ev(st.value), st)
             return None
         if isinstance(st, ast.AugAssign):
+            if isinstance(st.target, (ast.Name, ast.Attribute)) and not (isinstance(st.target, ast.Name) and st.target.id in ev.buffers):
+                # x op= v  is  x = x op v
+                load = ast.Name(id=st.target.id, ctx=ast.Load()) if isinstance(st.target, ast.Name) else \
+                    ast.Attribute(value=st.target.value, attr=st.target.attr, ctx=ast.Load())
+                expr = ast.BinOp(left=ast.copy_location(load, st.target), op=st.op, right=st.value)
+                self.assign(st.target, ev.ev(ast.copy_location(expr, st)), st)
+                return None
             ev.stmt(st)
             return None
         if isinstance(st, ast.If):
@@ -1843,7 +2052,7 @@ class Walker:
     def assign(self, target, v, st):
         ev = self.ev
         if isinstance(target, (ast.Tuple, ast.List)) and _plain(v):
-            v = as_sequence(v)
+            v = as_sequence(v, records=True)
             known = K.conc(v) if _plain(v) else K.NOT
             if isinstance(known, (str, bytes)) and len(known) == len(target.elts) and not any(isinstance(t, ast.Starred) for t in target.elts):
                 v = K.lift(tuple(known[i:i + 1] if isinstance(known, str) else known[i] for i in range(len(known))))       # a text unpacks into its characters
@@ -2474,6 +2683,10 @@ class Walker:
                 if same(F.fn("not", brk), nxt, whole_values=False):
                     fr.items.pop()
                     breaks = [b_ for b_ in breaks[:-1]]
+        if not always and not forced and _plain(test):
+            t2 = self._unflag(test, ph, entry, carry, fid)
+            if t2 is not None:
+                test, forced = t2
         lp = Loop("while", test, fr.items, carry, fid, orig if orig is not None else st, entry, g0, ph, forced, fr)
         lp.exits = status
         if is_unknown(test):
@@ -2497,6 +2710,56 @@ class Walker:
             self.run(st.orelse)
         return None
 
+    def _unflag(self, test, ph, entry, carry, fid):
+        """a loop steered by a flag - `more = E0; while more: B; more = E` - is the loop on the test the flag holds: the value the flag gets
+        at the end of the body, written on the loop-carried locals as they are at the top of the loop (the values the body leaves in them
+        replaced by their placeholders).  It must give the flag's entry value on the entry values (top-tested loop), or the flag is true on
+        entry (a loop tested at its end).  -> (test, forced) or None when the loop is not of this kind"""
+        pol = True
+        p = test
+        q = fn_parts(test)
+        if q is not None and q[0] == "not" and len(q[1]) == 1 and not isinstance(q[1][0], str):
+            pol, p = False, q[1][0]
+        nm = [k for k, v in ph.items() if _plain(v) and v.equals(p)]
+        if len(nm) != 1 or (fn_parts(p) or ("",))[0] != "lv":
+            return None
+        upd = [v for pp, v in carry if pp.equals(p)]
+        e0 = entry.get(nm[0])
+        if len(upd) != 1 or not _plain(upd[0]) or not _plain(e0) or not (is_truth_value(upd[0]) or upd[0].is_const()):
+            return None
+        U = canon_tests(upd[0])
+        atoms_map, polys = [], []
+        for pp, v in carry:
+            if pp.equals(p) or not _plain(v) or v.is_const() or v.equals(pp):
+                continue
+            (atoms_map if as_atom(v) is not None else polys).append((canon_tests(v), pp))
+        back = renamer(atoms_map)
+        polys = [(back(v), pp) for v, pp in polys]
+
+        def post(name, args):
+            if name in ("ge0", "eq0") and len(args) == 1 and not isinstance(args[0], str):
+                for v, pp in polys:
+                    for sign in (1, -1):
+                        rest = args[0] - sign * v
+                        own = {akey(F.Rat(F.Poly.atom(a))) for a in atoms_of(v)}
+                        if own and not (own & {akey(F.Rat(F.Poly.atom(a))) for a in atoms_of(rest)}) and own <= {akey(F.Rat(F.Poly.atom(a))) for a in atoms_of(args[0])}:
+                            return F.fn(name, sign * pp + rest)
+            return None
+        T = rewrite(back(U), post=post)
+        # the test must speak about the state at the top of the loop: nothing read in this iteration, nothing left by its body
+        for d in walk_atoms(T):
+            if d[0] == "fn" and d[1] in ("rd", "ln", "lns", "after", "tell") and d[2] and not isinstance(d[2][0], str) and _arg(d[2][0]).equals(fid):
+                return None
+        mapping = [(pp, entry.get(k)) for k, pp in ph.items() if _plain(pp) and _plain(entry.get(k))]
+        T0 = renamer(mapping)(T)
+        if not pol:
+            T, T0, e0 = F.fn("not", T), F.fn("not", T0), F.fn("not", e0)
+        if same(T0, e0, whole_values=False):
+            return T, False
+        if truth_of(e0) is True:
+            return T, True
+        return None
+
     def _trip_count(self, it_node):
         """number of iterations of `for _ in <it_node>` when it does not depend on the file: it.repeat(x, n) / range(n)"""
         if isinstance(it_node, ast.Call):
@@ -2505,6 +2768,15 @@ class Walker:
                 return self.ev.ev(it_node.args[1])
             if d == "range" and len(it_node.args) == 1:
                 return self.ev.ev(it_node.args[0])
+            if d == "range" and len(it_node.args) in (2, 3) and not it_node.keywords:
+                # range(a, b) has b - a elements, range(a, b, s) one per s of them (s > 0: a count per line / per value)
+                vals = [self.ev.ev(a) for a in it_node.args]
+                if all(_plain(v) for v in vals):
+                    span = vals[1] - vals[0]
+                    if len(vals) == 2:
+                        return span
+                    if not (vals[2].is_const() and vals[2].const_value() <= 0):
+                        return floordiv(span + vals[2] - 1, vals[2])
         return None
 
     def _for(self, st):
@@ -2514,6 +2786,8 @@ class Walker:
         itv = None
         if n is None:
             itv = ev.ev(st.iter)
+            if self.is_file(itv):
+                raise Stuck(f"`for` over the lines of the file at line {st.lineno}: iteration of the file itself is not modelled")
             if isinstance(itv, tuple) and len(itv) <= 64 and not st.orelse \
                     and not any(isinstance(x, (ast.Break, ast.Continue)) for y in st.body for x in _own_level(y)):
                 # a loop over a literal sequence is the sequence of its iterations
@@ -2697,7 +2971,10 @@ class Walker:
                     self.assign(ast.copy_location(ast.Attribute(value=obj, attr=k, ctx=ast.Store()), node), v, node)
                 return NONE
         if name in ("SimpleNamespace", "types.SimpleNamespace") and not node.args and not any(k.arg is None for k in node.keywords):
-            return make_record([(k.arg, ev.ev(k.value)) for k in node.keywords], ordered=False)
+            kws = {k.arg: ev.ev(k.value) for k in node.keywords}
+            val = make_record(list(kws.items()), ordered=False)
+            self.events.append(("call", name, [], kws, self.guard, node, None, self.frame.id, val))
+            return val
         if name in ("namedtuple", "collections.namedtuple") and len(node.args) == 2 and not any(k.arg in ("rename", "defaults") for k in node.keywords):
             fields = K.conc(ev.ev(node.args[1]))
             if isinstance(fields, str):
@@ -2850,6 +3127,10 @@ class Walker:
                 fmt, data = F.fn("structof", need(structobj)) if structobj is not None and not is_unknown(structobj) else Unknown("struct object"), pos[0]
             if is_unknown(data) or isinstance(data, tuple):
                 return data if is_unknown(data) else Unknown("unpack of a tuple")
+            if meth == "unpack_from":
+                off = kws.get("offset", pos[2] if name in ("struct.unpack_from",) and len(pos) > 2 else (pos[1] if name not in ("struct.unpack_from",) and len(pos) > 1 else ZERO))
+                if not _plain(off) or not off.is_zero():
+                    raise Stuck(f"unpack_from at an offset into a buffer (line {node.lineno}): decoding parts of one read is not modelled")
             if _plain(fmt):
                 fmt = canon_format(fmt)
             self.events.append(("unpack", fmt, data, node))
@@ -2866,8 +3147,25 @@ class Walker:
             if id(node) in self.indirect and isinstance(func, ast.Name):
                 self.events.append(("dispatch", ev.env.get(func.id), node))
             return self.inline(target, node, ev, name)
+        if name == "next" and node.args and not node.keywords and isinstance(node.args[0], (ast.Name, ast.Attribute)) and self.is_file(ev.ev(node.args[0])) \
+                and len(node.args) == 1:
+            fr = self.frame
+            at = F.fn("ln", fr.id, fr.off["L"])         # next(f) on a text file is the next line, as readline() gives it
+            self.emit("L", ONE, node)
+            self.events.append(("line", at, node))
+            return at
+        if self.foreign_base and name is not None and name.startswith("self.") and name.count(".") == 1 and name not in ev.env and self.files:
+            # a method the class inherits from a class defined elsewhere: it may read the file
+            raise Stuck(f"{name} is not defined in this module (inherited from a class defined elsewhere): what it reads is not known (line {node.lineno})")
         pos, kws = self._args(node, ev)
         callee = ev.env.get(func.id) if isinstance(func, ast.Name) else None
+        if self.files and isinstance(func, ast.Attribute) and name is not None and name.startswith("self.") and name.count(".") == 2 \
+                and func.attr not in _VALUE_METHODS and name.rsplit(".", 1)[0] not in ev.env:
+            # a method of an object the reader holds (self.x.m(...)) that is not a method of a plain value: it may read the file
+            raise Stuck(f"{name}: a method of an object held by the reader, which the evaluator cannot follow - it may read the file (line {node.lineno})")
+        if any(self.is_file(v) for v in list(pos) + list(kws.values())) and (name or "").split(".")[-1] not in _FILE_NEUTRAL:
+            # the file handed to a function that is not followed: what it consumes is not known
+            raise Stuck(f"the file is handed to {name or ast.unparse(func)}, which the evaluator cannot follow (line {node.lineno})")
         val = self._opaque(name, recv, pos, kws, node)
         self.events.append(("call", name if name is not None else ("." + func.attr if isinstance(func, ast.Attribute) else None), pos, kws,
                             self.guard, node, callee, self.frame.id, val))
@@ -2888,10 +3186,23 @@ class Walker:
             r = split_fold(list(pos) + [kws[k] for k in kn], lambda vs: K.fold_builtin(name, vs[:len(pos)], dict(zip(kn, vs[len(pos):]))))
             if r is not None:
                 return r
+        if name in ("struct.calcsize", "calcsize") and len(pos) == 1 and not kws and self.sizes is not None and plain(pos[0]):
+            r = self.sizes.struct_size(canon_format(pos[0]) if fn_parts(pos[0]) is not None else pos[0])
+            if r is not None:
+                return r
         if name == "enumerate" and pos and isinstance(pos[0], tuple) and not any(is_unknown(x) for x in pos[1:]):
             start = K.conc(pos[1]) if len(pos) > 1 else K.conc(kws.get("start", ZERO))
             if isinstance(start, int):
                 return tuple((F.const(start + i), x) for i, x in enumerate(pos[0]))
+        if name == "range" and 1 <= len(pos) <= 3 and not kws:
+            known = [K.conc(v) for v in pos]
+            if all(isinstance(x, int) and not isinstance(x, bool) for x in known):
+                try:
+                    r = range(*known)
+                except ValueError:
+                    r = None
+                if r is not None and len(r) <= 64:
+                    return tuple(F.const(i) for i in r)          # a short range of known numbers is the sequence of them
         if name == "reversed" and len(pos) == 1 and isinstance(pos[0], tuple):
             return tuple(reversed(pos[0]))
         if name in ("iter",) and len(pos) == 1 and isinstance(pos[0], tuple):
@@ -2909,14 +3220,24 @@ class Walker:
             return pos[0]
         if name == "len" and len(pos) == 1 and isinstance(pos[0], tuple):
             return F.const(len(pos[0]))
-        if name == "bool" and len(pos) == 1 and plain(pos[0]):
-            return pos[0]
+        if name == "bool" and len(pos) == 1 and plain(pos[0]) and (is_truth_value(pos[0]) or pos[0].is_const()):
+            return pos[0] if not pos[0].is_const() else F.const(int(pos[0].const_value() != 0))
+        if name in ("math.ceil", "ceil", "np.ceil") and len(pos) == 1 and not kws and plain(pos[0]):
+            p = fn_parts(pos[0])
+            if p is not None and p[0] == "truediv":
+                return floordiv(p[1][0] + p[1][1] - 1, p[1][1])         # ceil(a / b) for counts (b > 0)
+        if name in ("math.floor", "floor", "np.floor") and len(pos) == 1 and not kws and plain(pos[0]):
+            p = fn_parts(pos[0])
+            if p is not None and p[0] == "truediv":
+                return floordiv(p[1][0], p[1][1])
         if name in ("abs", "np.abs", "np.absolute") and len(pos) == 1 and not is_unknown(pos[0]) and not isinstance(pos[0], tuple):
             return F.fn("abs", pos[0])
         if name == "int" and len(pos) == 1 and not kws and not is_unknown(pos[0]) and not isinstance(pos[0], tuple):
             p = fn_parts(pos[0])
             if p is not None and p[0] == "truediv":
                 return floordiv(p[1][0], p[1][1])
+            if p is not None and p[0] == "floordiv":
+                return pos[0]
         args = []
         if name is None:
             if isinstance(func, ast.Attribute):
@@ -3028,22 +3349,67 @@ def _return_value(lst, name, depth=0):
     return phi(c, _return_value(yes, name, depth + 1), _return_value(no, name, depth + 1))
 
 
+def class_lineage(ctx, rel, cls):
+    """the class and the classes of the same module it inherits from, in method resolution order (depth first, left to right; enough for
+    single inheritance and mixins), and whether some base class is defined elsewhere -> ([names], foreign)"""
+    m = ctx.src.mod(rel)
+    out, foreign = [], [False]
+
+    def visit(name, depth=0):
+        c = m.classes.get(name)
+        if c is None or name in out or depth > 8:
+            return
+        out.append(name)
+        for b in c.bases:
+            d = dotted(b)
+            if d in m.classes:
+                visit(d, depth + 1)
+            elif d not in ("object",):
+                foreign[0] = True
+    if cls:
+        visit(cls)
+    return out, foreign[0]
+
+
+def resolve_method(ctx, rel, qual):
+    """the qualified name under which a method of a class is defined: in the class itself or in a base class of the same module"""
+    m = ctx.src.mod(rel)
+    if qual in m.funcs or "." not in qual:
+        return qual
+    cls, nm = qual.rsplit(".", 1)
+    for c in class_lineage(ctx, rel, cls)[0]:
+        if f"{c}.{nm}" in m.funcs:
+            return f"{c}.{nm}"
+    return qual
+
+
 def _method_table(ctx, rel, cls):
     m = ctx.src.mod(rel)
     out = {}
+    lineage = class_lineage(ctx, rel, cls)[0] if cls else []
     for q, f in m.funcs.items():
         if "#" in q:
             continue
         if "." not in q:
             out[q] = f
-        elif cls and q.startswith(cls + ".") and q.count(".") == 1:
-            nm = q.split(".", 1)[1]
-            out["self." + nm] = f
-            out[cls + "." + nm] = f
+    for c in reversed(lineage):          # (a method of the class overrides the one it inherits)
+        for q, f in m.funcs.items():
+            if "#" not in q and q.startswith(c + ".") and q.count(".") == c.count(".") + 1:
+                nm = q.rsplit(".", 1)[1]
+                out["self." + nm] = f
+                out[cls + "." + nm] = f
+                out[c + "." + nm] = f
+                out["super()." + nm] = f if c != cls else out.get("super()." + nm, f)
     return out
 
 
 _FILE_METHODS = {"read", "seek", "readline", "readlines"}
+_FILE_NEUTRAL = frozenset({"isinstance", "id", "print", "repr", "str", "type", "hasattr", "getattr", "bool", "callable", "fstat", "fileno", "isatty"})
+_VALUE_METHODS = frozenset(K.STR_METHODS | K.INT_METHODS | {
+    "append", "extend", "insert", "pop", "remove", "sort", "reverse", "clear", "add", "update", "setdefault", "popitem", "discard", "copy", "get",
+    "items", "keys", "values", "index", "count", "unpack", "unpack_from", "iter_unpack", "pack", "pack_into", "view", "astype", "reshape", "tolist",
+    "byteswap", "ravel", "flatten", "transpose", "item", "any", "all", "sum", "min", "max", "nonzero", "searchsorted", "fill", "tobytes", "newbyteorder",
+    "close", "flush", "fileno", "isatty", "seekable", "readable", "warn"})
 _MUTATORS = frozenset({"append", "extend", "insert", "pop", "remove", "sort", "reverse", "clear", "add", "update", "setdefault", "popitem", "discard"})
 
 
